@@ -604,7 +604,12 @@ def work_curve(job):
     for vname, exe in exes.items():
         vm = meta[vname]
         vrng = Rng("C03v", common.seed(), ci, oname, vname)
+        # cost grows with bits^3: slow variants get a rotating third (quick) / half (thorough) of the
+        # tuples, curves of 384 bits and more half of that again; over the 32 curves every tuple kind
+        # meets every variant
         div = (3 if tier == "quick" else 2) if vm.get("slow") else 1
+        if c.bits >= 384:
+            div *= 2
         sel = [i for i in range(len(tuples)) if (i + ci) % div == vm["idx"] % div]
         my_tuples = [tuples[i] for i in sel]
         my_cases = [sign_cases[i] for i in sel]
